@@ -163,7 +163,11 @@ func Run(job Job, scratch string) (res Result) {
 		if t := p.Tasks[r.Task]; t == nil || t.run() != "when_changed" {
 			vars.Set("P", ast.Var{Value: fmt.Sprintf("r%d", k+1)})
 		}
-		if r.V != "" {
+		if strings.Contains(r.V, "+") {
+			f := strings.SplitN(r.V, "+", 2)
+			vars.Set("V", ast.Var{Value: f[0]})
+			vars.Set("W", ast.Var{Value: f[1]})
+		} else if r.V != "" {
 			vars.Set("V", ast.Var{Value: r.V})
 		}
 		calls = append(calls, &task.Call{Task: r.Task, Vars: vars})
